@@ -155,17 +155,17 @@ theorem sim_trapExit (b : Prog) (hst : Stat K k sub) (hs : supCmd K (.trapExit b
   · intro _ h; simp at h
 
 theorem sim_exit (m : Option Nat) (hst : Stat K k sub) (hd : Dyn K k sub s) (hl : LastOk s)
-    (hx : s.exit = {}) (le q : Prop) :
+    (hp : NoPending s) (hx : s.exit = {}) (le q : Prop) :
     Rel (Post K k sub le q s) (run (n+1) (.cmd (.exit m)) s)
       (sem (n+1) k (.cmd (.exit m)) (absEnv s)) := by
   cases m with
   | none =>
     simp only [run, sem, stop_false_of_exit hx, Rel, Post, builtinExit, hst.kt]
-    refine ⟨rfl, hl.1, ?_, rfl, rfl, hd.csub, hd.ht, hd.cerr⟩
+    refine ⟨rfl, hl.1, ?_, rfl, rfl, hd.csub, hd.ht, hd.cerr, hp⟩
     simp [absEnv]
   | some v =>
     simp only [run, sem, stop_false_of_exit hx, Rel, Post, builtinExit]
-    refine ⟨rfl, rfl, ?_, rfl, rfl, hd.csub, hd.ht, hd.cerr⟩
+    refine ⟨rfl, rfl, ?_, rfl, rfl, hd.csub, hd.ht, hd.cerr, hp⟩
     simp [uint8, status256]
 
 theorem sim_ret (m : Option Nat) (hst : Stat K k sub) (hs : supCmd K (.ret m) = true)
@@ -206,11 +206,14 @@ theorem sim_brk (m : Option Int) (hst : Stat K k sub) (hs : supCmd K (.brk m) = 
   have hne : K.tl ≠ [] := by
     intro h; rw [h] at h2; simp at h2; omega
   have hil : s.inLoop = true := hd.inl hne
-  have hdep : k.depth ≠ 0 := by
-    rw [← hst.depth]; intro h; exact hne (List.eq_nil_of_length_eq_zero h)
+  have hlen : 1 ≤ K.tl.length := by
+    cases hk : K.tl with
+    | nil => exact absurd hk hne
+    | cons _ _ => simp
+  have hdep : k.depth ≠ 0 := by have := hst.depth; omega
   have hlt : ¬ (optInt m < 1) := by omega
   have hmin : min (optInt m).toNat k.depth = (optInt m).toNat := by
-    rw [← hst.depth]; omega
+    have := hst.depth; omega
   have hrun : run (n+1) (.cmd (.brk m)) s =
       some { s with lastExpandExit := {}, exit := {}, breakEnclosing := optInt m } := by
     simp [run, stop_false_of_exit hx, hil]
@@ -234,11 +237,14 @@ theorem sim_cont (m : Option Int) (hst : Stat K k sub) (hs : supCmd K (.cont m) 
   have hne : K.tl ≠ [] := by
     intro h; rw [h] at h2; simp at h2; omega
   have hil : s.inLoop = true := hd.inl hne
-  have hdep : k.depth ≠ 0 := by
-    rw [← hst.depth]; intro h; exact hne (List.eq_nil_of_length_eq_zero h)
+  have hlen : 1 ≤ K.tl.length := by
+    cases hk : K.tl with
+    | nil => exact absurd hk hne
+    | cons _ _ => simp
+  have hdep : k.depth ≠ 0 := by have := hst.depth; omega
   have hlt : ¬ (optInt m < 1) := by omega
   have hmin : min (optInt m).toNat k.depth = (optInt m).toNat := by
-    rw [← hst.depth]; omega
+    have := hst.depth; omega
   have hrun : run (n+1) (.cmd (.cont m)) s =
       some { s with lastExpandExit := {}, exit := {}, contnEnclosing := optInt m } := by
     simp [run, stop_false_of_exit hx, hil]
